@@ -673,3 +673,62 @@ def find_all(root, typ, pred=None):
     out = [n for n in ast.walk(root) if isinstance(n, typ) and (pred is None or pred(n))]
     out.sort(key=lambda n: (getattr(n, 'lineno', 0), getattr(n, 'col_offset', 0)))
     return out
+
+
+# ---------------------------------------------------------------- guarded-effect tables (E-get)
+
+class Effect(object):
+    """one attribute store or call inside a function together with its control-dependence chain"""
+    def __init__(self, kind, target, value, stmt, node):
+        self.kind = kind          # 'store' | 'call'
+        self.target = target      # source text of the store target / called name
+        self.value = value        # source text of the stored value / the call
+        self.stmt = stmt
+        self.node = node
+        self.guards = guards(node)
+        self.line = stmt.lineno
+
+    def gtexts(self, kinds=('if', 'early')):
+        return [g.text() for g in self.guards if g.kind in kinds]
+
+    def under(self, substr, polarity=None):
+        """is some guard mentioning `substr` on the chain (with the given polarity of the whole test)?"""
+        for g in self.guards:
+            if g.kind not in ('if', 'early', 'while'):
+                continue
+            if substr in src(g.test) and (polarity is None or g.polarity == polarity):
+                return True
+        return False
+
+    def __repr__(self):
+        return '<%s %s = %s if %s>' % (self.kind, self.target, self.value, ' and '.join(self.gtexts()))
+
+
+def effects(func):
+    out = []
+    for t, v, st in stores_in(func):
+        if isinstance(t, (ast.Attribute, ast.Subscript)):
+            out.append(Effect('store', src(t), src(v), st, st))
+    for c in calls_in(func):
+        nm = call_name(c)
+        if nm:
+            out.append(Effect('call', nm, src(c), enclosing_stmt(c), c))
+    out.sort(key=lambda e: (e.line, getattr(e.node, 'col_offset', 0)))
+    return out
+
+
+def reachable_methods(py, modname, cname, roots, depth=8):
+    """methods of the class reachable from `roots` through self.<m>(...) calls"""
+    methods = py.methods(modname, cname)
+    seen = set()
+    work = [r for r in roots if r in methods]
+    while work:
+        m = work.pop()
+        if m in seen:
+            continue
+        seen.add(m)
+        for c in calls_in(methods[m]):
+            nm = call_name(c) or ''
+            if nm.startswith('self.') and nm[5:] in methods and nm[5:] not in seen:
+                work.append(nm[5:])
+    return seen
